@@ -165,6 +165,77 @@ void h_v64cur(void) {
 #define EDIT_COUNTS(e) ((e)->compact_pointers.length == g_ncp && (e)->new_files.length == g_nnew && (e)->deleted_files.size <= g_ndel)
 #define EDIT_NAME_INSIDE(e) (!(e)->has_comparator || INSIDE_SRC((e)->comparator.data, (e)->comparator.size))
 
+/* The three list mutators allocate an entry; dfcc loop contracts do not admit
+ * allocation inside the loop body, so in edit.import they are replaced by the
+ * contracts below (enforced against the real functions, with the recording
+ * stubs above, in edit.setcp / edit.rmfile / edit.addfile).  Their REQUIRES
+ * clauses are the obligations on the decoder at each call site: level < 7,
+ * internal keys >= 8 bytes, keys inside the input record. */
+#define KEY_OK(k) (__CPROVER_r_ok(k, sizeof(*(k))) && (k)->size >= 8 && INSIDE_SRC((k)->data, (k)->size))
+
+void c_edit_set_compact_pointer(ldb_edit_t *edit, int level, const ldb_ikey_t *key)
+__CPROVER_requires(edit == g_edit && __CPROVER_rw_ok(edit, sizeof(*edit)))
+__CPROVER_requires(level >= 0 && level < REF_NUM_LEVELS)
+__CPROVER_requires(KEY_OK(key))
+__CPROVER_assigns(edit->compact_pointers.length, g_rec)
+__CPROVER_ensures(edit->compact_pointers.length == __CPROVER_old(edit->compact_pointers.length) + 1 && g_rec.ncp == __CPROVER_old(g_rec.ncp) + 1)
+__CPROVER_ensures(g_rec.ndel == __CPROVER_old(g_rec.ndel) && g_rec.nnew == __CPROVER_old(g_rec.nnew))
+__CPROVER_ensures(g_rec.cp[__CPROVER_old(g_rec.ncp) == 0 ? 0 : 1]->level == level && g_rec.cp[__CPROVER_old(g_rec.ncp) == 0 ? 0 : 1]->key.data == key->data && g_rec.cp[__CPROVER_old(g_rec.ncp) == 0 ? 0 : 1]->key.size == key->size)
+;
+
+void c_edit_remove_file(ldb_edit_t *edit, int level, uint64_t number)
+__CPROVER_requires(edit == g_edit && __CPROVER_rw_ok(edit, sizeof(*edit)))
+__CPROVER_requires(level >= 0 && level < REF_NUM_LEVELS)
+__CPROVER_assigns(edit->deleted_files.size, g_rec)
+__CPROVER_ensures(g_rec.ndel == __CPROVER_old(g_rec.ndel) + 1 && g_rec.ncp == __CPROVER_old(g_rec.ncp) && g_rec.nnew == __CPROVER_old(g_rec.nnew))
+__CPROVER_ensures(edit->deleted_files.size == __CPROVER_old(edit->deleted_files.size) || edit->deleted_files.size == __CPROVER_old(edit->deleted_files.size) + 1)
+__CPROVER_ensures(g_rec.del[__CPROVER_old(g_rec.ndel) == 0 ? 0 : 1].level == level && g_rec.del[__CPROVER_old(g_rec.ndel) == 0 ? 0 : 1].number == number)
+;
+
+void c_edit_add_file(ldb_edit_t *edit, int level, uint64_t number, uint64_t file_size, const ldb_ikey_t *smallest, const ldb_ikey_t *largest)
+__CPROVER_requires(edit == g_edit && __CPROVER_rw_ok(edit, sizeof(*edit)))
+__CPROVER_requires(level >= 0 && level < REF_NUM_LEVELS)
+__CPROVER_requires(KEY_OK(smallest) && KEY_OK(largest))
+__CPROVER_assigns(edit->new_files.length, g_rec)
+__CPROVER_ensures(edit->new_files.length == __CPROVER_old(edit->new_files.length) + 1 && g_rec.nnew == __CPROVER_old(g_rec.nnew) + 1)
+__CPROVER_ensures(g_rec.ndel == __CPROVER_old(g_rec.ndel) && g_rec.ncp == __CPROVER_old(g_rec.ncp))
+__CPROVER_ensures(g_rec.nw[__CPROVER_old(g_rec.nnew) == 0 ? 0 : 1]->level == level && g_rec.nw[__CPROVER_old(g_rec.nnew) == 0 ? 0 : 1]->meta.number == number && g_rec.nw[__CPROVER_old(g_rec.nnew) == 0 ? 0 : 1]->meta.file_size == file_size)
+__CPROVER_ensures(g_rec.nw[__CPROVER_old(g_rec.nnew) == 0 ? 0 : 1]->meta.smallest.data == smallest->data && g_rec.nw[__CPROVER_old(g_rec.nnew) == 0 ? 0 : 1]->meta.smallest.size == smallest->size)
+__CPROVER_ensures(g_rec.nw[__CPROVER_old(g_rec.nnew) == 0 ? 0 : 1]->meta.largest.data == largest->data && g_rec.nw[__CPROVER_old(g_rec.nnew) == 0 ? 0 : 1]->meta.largest.size == largest->size)
+;
+
+/* harnesses of the three mutators: arbitrary counters, arbitrary level in range, keys inside an arbitrary input */
+#define MUT_SETUP \
+  IN_SIZE(in_n); IN_BUF(buf, in_n); SNAP_BUF(buf, in_n); ldb_edit_t edit; IN_INT(in_level); IN_SIZE(in_ncp); IN_SIZE(in_ndel); IN_SIZE(in_nnew); \
+  g_edit = &edit; g_src = buf; g_srcn = in_n; g_exact_set = 0; ldb_edit_init(&edit); \
+  ASSUME(in_ncp < 1000000 && in_ndel < 1000000 && in_nnew < 1000000); \
+  g_ncp = in_ncp; g_ndel = in_ndel; g_nnew = in_nnew; edit.compact_pointers.length = in_ncp; edit.new_files.length = in_nnew; edit.deleted_files.size = in_ndel; \
+  ASSUME(in_level >= 0 && in_level < REF_NUM_LEVELS)
+#define MK_KEYVIEW(k, off, len) IN_SIZE(off); IN_SIZE(len); ldb_ikey_t k; ASSUME(len >= 8 && len <= in_n && off <= in_n - len); k.data = buf + off; k.size = len; k.alloc = 0
+
+void h_edit_setcp(void) {
+  MUT_SETUP; MK_KEYVIEW(key, in_off, in_len);
+  ldb_edit_set_compact_pointer(&edit, in_level, &key);
+  CHECK(g_ncp == in_ncp + 1 && g_cp[in_ncp == 0 ? 0 : 1]->level == in_level && g_cp[in_ncp == 0 ? 0 : 1]->key.data == key.data && g_cp[in_ncp == 0 ? 0 : 1]->key.size == in_len,
+        "edit_set_compact_pointer: one entry (level, copy of the key) pushed to compact_pointers");
+  CANARY();
+}
+void h_edit_rmfile(void) {
+  MUT_SETUP; IN_U64(in_number);
+  ldb_edit_remove_file(&edit, in_level, in_number);
+  CHECK(g_ndel == in_ndel + 1 && g_del[in_ndel == 0 ? 0 : 1].level == in_level && g_del[in_ndel == 0 ? 0 : 1].number == in_number,
+        "edit_remove_file: one entry (level, number) put into deleted_files");
+  CANARY();
+}
+void h_edit_addfile(void) {
+  MUT_SETUP; IN_U64(in_number); IN_U64(in_fsize); MK_KEYVIEW(sm, in_off1, in_len1); MK_KEYVIEW(lg, in_off2, in_len2);
+  ldb_edit_add_file(&edit, in_level, in_number, in_fsize, &sm, &lg);
+  CHECK(g_nnew == in_nnew + 1 && g_new[in_nnew == 0 ? 0 : 1]->level == in_level && g_new[in_nnew == 0 ? 0 : 1]->meta.number == in_number && g_new[in_nnew == 0 ? 0 : 1]->meta.file_size == in_fsize &&
+        g_new[in_nnew == 0 ? 0 : 1]->meta.smallest.data == sm.data && g_new[in_nnew == 0 ? 0 : 1]->meta.largest.data == lg.data,
+        "edit_add_file: one entry (level, number, size, smallest, largest) pushed to new_files");
+  CANARY();
+}
+
 int c_edit_import(ldb_edit_t *edit, const ldb_slice_t *src)
 __CPROVER_requires(__CPROVER_rw_ok(edit, sizeof(*edit)) && __CPROVER_r_ok(src, sizeof(*src)) && __CPROVER_r_ok(src->data, src->size))
 /* the edit is freshly initialised (ldb_edit_init); releasing a used edit is ldb_edit_reset's business (unit edit.reset) */
